@@ -9,7 +9,13 @@
              else: raise ValueError('Refuse to make another copy. CLEAN UP!')
    Afterwards the marker text is written to the BACKUP name of the chosen candidate if that backup does not exist
    (Model/Fs.v `init_ops` models the two files of the chosen name).
-   Tie to the code: transcription only (no correspondence stream). *)
+   Tie to the code: correspondence stream `fix-name` of harness/c18.py (checker Model/FixNamesCheck.v `check_fix_name`):
+   Simulation.fix_output_filenames of the current source is called (through Simulation.__init__ and directly) in
+   temporary directories pre-populated with generated subsets of the candidate names (random, dense prefixes with a hole,
+   0..98, 0..99, 0..99 minus one, 1..99) plus names it must ignore (backup / __old__ / zero-padded / _0 / _100 / other
+   extension), for all settings of skip_if_output_exists, overwrite_output, loaded_from_checkpoint; the recorded
+   Skip / ValueError / index of the chosen output_filename is compared with `fix_name` (ex = membership of the index in the
+   list of existing candidates). *)
 From TenpyV Require Import Base.Prelude.
 
 Fixpoint first_free (ex : nat -> bool) (i fuel : nat) : option nat :=
